@@ -536,6 +536,73 @@ func (c *c20Check) Run(seed, run uint64, rec []uint32, st Stats, only *Viol) []V
 	return viols
 }
 
+// Minimise delta-debugs the recorded switch list (the workload tape stays fixed): chunks
+// of switches are removed while a fresh process replaying the remaining explicit schedule
+// still shows the same violation signature. Forced switches that are removed fall back to
+// "first runnable task", so every candidate is a legal schedule.
+func (c *c20Check) Minimise(v Viol) Viol {
+	b, _ := json.Marshal(v.Derived["schedule"])
+	var sw []map[string]uint32
+	if json.Unmarshal(b, &sw) != nil || len(sw) == 0 {
+		return v
+	}
+	best := v
+	budget := 40
+	holds := func(cand []map[string]uint32) bool {
+		if budget <= 0 {
+			return false
+		}
+		budget--
+		probe := v
+		probe.Derived = map[string]interface{}{}
+		for k, x := range v.Derived {
+			probe.Derived[k] = x
+		}
+		probe.Derived["schedule"] = cand
+		st := newC20Stats()
+		for _, x := range c.Run(v.Seed, v.Run, nil, st, &probe) {
+			if x.Signature == v.Signature {
+				x.Tier = v.Tier
+				best = x
+				return true
+			}
+		}
+		return false
+	}
+	cur := sw
+	for n := 2; len(cur) >= 1 && budget > 0; {
+		chunk := (len(cur) + n - 1) / n
+		reduced := false
+		for i := 0; i < len(cur) && budget > 0; i += chunk {
+			end := i + chunk
+			if end > len(cur) {
+				end = len(cur)
+			}
+			cand := append(append([]map[string]uint32(nil), cur[:i]...), cur[end:]...)
+			if holds(cand) {
+				cur = cand
+				reduced = true
+				break
+			}
+		}
+		if reduced {
+			if n > 2 {
+				n--
+			}
+			continue
+		}
+		if chunk <= 1 {
+			break
+		}
+		n *= 2
+		if n > len(cur) {
+			n = len(cur)
+		}
+	}
+	best.Derived["schedule_minimised_from"] = len(sw)
+	return best
+}
+
 func headSwitches(sw []map[string]uint32, n int) []string {
 	var out []string
 	for i, s := range sw {
